@@ -320,6 +320,7 @@ func RunTpl(in TplIn) (TplOut, error) {
 	// volumes schema knows as a field — see kind "volumes-column-address")
 	other := map[string]string{"accounts": "transactions", "transactions": "accounts", "logs": "volumes", "volumes": "transactions"}[in.Resource]
 	_, otherNext := e.runList(other, "", 1)
+	_, accountsNext := e.runList("accounts", "", 1)
 	for _, bad := range in.Bad {
 		cur := bad.Cursor
 		switch bad.Kind {
@@ -331,6 +332,27 @@ func RunTpl(in TplIn) (TplOut, error) {
 			if in.Resource != "volumes" {
 				continue
 			}
+		case "volumes-accounts-cursor":
+			// a valid cursor of the ACCOUNTS listing (sort column `address`) sent to a volumes template
+			if in.Resource != "volumes" || accountsNext == "" {
+				continue
+			}
+			cur = accountsNext
+		case "volumes-sort-address":
+			// not a cursor: the plain listing GET /v2/{ledger}/volumes?sort=address:asc
+			if in.Resource != "volumes" {
+				continue
+			}
+			st, body, p := e.call("GET", "/v2/tpl/volumes?sort=address:asc&pageSize=2", "")
+			bo := TplBadOut{Kind: bad.Kind, Status: st, Panic: p, Keys: []string{}}
+			var parsed map[string]any
+			if json.Unmarshal(body, &parsed) == nil {
+				if s, ok := parsed["errorCode"].(string); ok {
+					bo.ErrorCode = s
+				}
+			}
+			out.Bad = append(out.Bad, bo)
+			continue
 		case "other-resource":
 			cur = otherNext
 		case "damaged", "truncated":
@@ -397,6 +419,7 @@ func badCursors(r *rand.Rand) []TplBad {
 		{"order-bad", b64(`{"pageSize":1,"column":"id","order":"sideways","paginationID":1}`)},
 		{"no-column", ""}, {"no-column-junk-options", ""},
 		{"volumes-column-address", b64(`{"pageSize":1,"offset":0,"column":"address"}`)},
+		{"volumes-accounts-cursor", ""}, {"volumes-sort-address", ""},
 		{"std-b64-binary", base64.StdEncoding.EncodeToString([]byte{0xff, 0xfe, 0x00, 0x01})},
 		{"damaged", ""}, {"truncated", ""}, {"other-resource", ""},
 	}
